@@ -127,6 +127,18 @@ def sCommaSp : Str := [44, 32]
 /-- `_format_header_value_list(iterable)` = `', '.join(iterable)` -/
 def formatList (items : List Str) : Str := join sCommaSp items
 
+/-- the members of an iterable whose items need not be str: `', '.join(...)` raises TypeError ("sequence item i: expected str
+    instance, int found") as soon as one member is not a str - `none`; otherwise the str members.  (The KIND of iterable - list,
+    tuple, set, dict view, generator, map / filter / reversed / iter object - does not appear in the model: `str.join` walks its
+    argument exactly once, so a one-shot iterable is the list of the items it yields.) -/
+def strMembers : List Item → Option (List Str)
+  | [] => some []
+  | .str s :: rest => (strMembers rest).map (s :: ·)
+  | .int _ :: _ => none
+
+/-- `_format_header_value_list` on an iterable of arbitrary items -/
+def formatItems (items : List Item) : Option Str := (strMembers items).map formatList
+
 /-- `location` / `content_location`: `uri.encode_check_escaped` -/
 def location (s : Str) : Str := Us.encodeCheckEscaped s
 
@@ -260,6 +272,8 @@ def HProp.key : HProp → String
 def HProp.transform (nfkd : Str → Str) : HProp → Val → Option Str
   | .cacheControl, .list l => some (formatList l)
   | .vary, .list l => some (formatList l)
+  | .cacheControl, .tuple t => formatItems t          -- an iterable with members that need not be str (TypeError = `none`)
+  | .vary, .tuple t => formatItems t
   | .contentLocation, .text s => some (Rp.location s)
   | .location, .text s => some (Rp.location s)
   | .contentRange, .tuple t => formatRange t
